@@ -80,7 +80,7 @@ func RunCLIBin(bin, dir string, args []string, timeoutS int, env ...string) *CLI
 			return nil
 		}
 		rel, _ := filepath.Rel(dir, p)
-		if strings.HasPrefix(rel, "dist/") || strings.HasPrefix(rel, "out/") {
+		if rel != "go.sum" && !strings.HasPrefix(rel, ".") && info.Size() < 4<<20 {
 			b, _ := os.ReadFile(p)
 			res.Files[rel] = string(b)
 			res.Modes[rel] = info.Mode().Perm()
